@@ -248,6 +248,17 @@ class SyncedList(SyncedCollection, MutableSequence):
                 [self._from_base(data=value, parent=self) for value in iterable_data]
             )
 
+    def pop(self, index=-1):  # noqa: D102
+        # The MutableSequence mixin implements pop as an unlocked read followed
+        # by a separate delete; do both in one load-modify-save step.
+        with self._load_and_save:
+            return self._data.pop(index)
+
+    def reverse(self):  # noqa: D102
+        # The mixin swaps elements with one item assignment (and save) each.
+        with self._load_and_save:
+            self._data.reverse()
+
     def remove(self, value):  # noqa: D102
         with self._load_and_save, self._suspend_sync:
             self._data.remove(self._from_base(data=value, parent=self))
